@@ -11,7 +11,7 @@ RULE = ("a body-bearing request (Content-Length on both sides of 1024, chunked i
         "delivered, in order, each answered with its own body; non-trivial = the body is non-empty; distinct = distinct lines")
 ASSUMPTIONS = ["the client half-closes after sending; Unix sockets for bulk, a TCP sample"]
 
-BODY_SIZES = [1, 2, 5, 100, 1023, 1024, 1025, 2048, 5000, 8191, 8192, 8193, 20000, 70000]
+BODY_SIZES = [1, 2, 5, 100, 1023, 1024, 1025, 2048, 5000, 8191, 8192, 8193, 20000, 70000, 140000]
 BUFS = [1, 2, 7, 1023, 1024, 1025, 4096, 8192, 65536]
 
 
@@ -53,9 +53,11 @@ def build(rng, i, transport="u", framing=None, size=None, style=None, tiny=False
     size = size if size is not None else rng.choice(BODY_SIZES)
     tag = "b%d" % i
     body = body_bytes(tag, size)
-    r = AReq(method=rng.choice(["POST", "PUT", "PATCH", "POST", "PUT", "CONNECT", "OPTIONS", "DELETE", "BREW"]), target="/" + tag,
+    r = AReq(method=rng.choice(["POST", "PUT", "PATCH", "POST", "PUT", "CONNECT", "OPTIONS", "DELETE", "BREW", "TRACE", "GET"]), target="/" + tag,
              version="1.1", headers=[("Host", "h")], framing=fr,
              body=body, chunks=random_chunks(rng, size) if fr != "cl" else None, chunk_style=style if style is not None else rng.below(4))
+    if rng.chance(1, 10):
+        r.headers = r.headers + [("X-Pad-%d" % k, "v") for k in range(rng.choice([64, 65, 100, 300]))]
     r.te_first = rng.chance(1, 2)
     r.te_value = rng.choice(["chunked", "chunked", "Chunked", "CHUNKED", "chunKed"])
     hv = rng.below(8)
